@@ -200,3 +200,111 @@ pub(super) fn ctx_new_case(cx: &mut Cx, order: u64, train: &[u8], v: &EncView, f
     }
     cx.coq_w(11, a, train, ex, "ContextualHuffmanEncoder::new", force, 14000);
 }
+
+// ------------------------------------------------------------------------------------------------
+// ParallelHuffmanEncoder / ParallelHuffmanDecoder object histories (op 12, coq/C01/ModelPar.v)
+// ------------------------------------------------------------------------------------------------
+pub(super) fn par_cfg(name: &str, streams: usize) -> ParallelConfig {
+    match name {
+        "low_latency" => ParallelConfig::low_latency(),
+        "high_throughput" => ParallelConfig::high_throughput(),
+        "balanced" => ParallelConfig::balanced(),
+        "always_parallel" => ParallelConfig { num_streams: streams, block_size: 16, adaptive_blocks: false, min_parallel_size: 0, load_balancing: true },
+        _ => ParallelConfig::default(),
+    }
+}
+fn lres(r: &Result<Vec<u8>, String>) -> Vec<u128> { let o = obs(r); let mut v = vec![o.len() as u128]; v.extend(o); v }
+
+/// One encoder object through `ops` ((is_train, bytes)).  With `judge_cell` every encode step is judged by the oracle (the
+/// decoder gets HuffmanTree::from_data of the text in force); the Coq case compares every answer with the model.
+pub(super) fn par_history<P: ParallelVariant>(cx: &mut Cx, cfg_name: &str, ops: &[(bool, Vec<u8>)], judge_cell: Option<&str>, cj: &Value, force: bool) {
+    let cfg = par_cfg(cfg_name, P::STREAMS);
+    let mut enc = match guarded(|| ParallelHuffmanEncoder::<P>::new(cfg.clone())) { Ok(Ok(e)) => e, _ => return };
+    let mut a: Vec<u128> = vec![P::STREAMS as u128, ops.len() as u128];
+    let mut expect: Vec<u128> = vec![];
+    let mut txt: Option<Vec<u8>> = None;
+    let mut coq_ok = true;
+    for (is_train, bytes) in ops {
+        a.push(if *is_train { 0 } else { 1 });
+        a.push(bytes.len() as u128);
+        a.extend(bytes.iter().map(|&x| x as u128));
+        match guarded(|| es(HuffmanTree::from_data(bytes))) {
+            Ok(Ok(t)) => match flat_table(&table_of(&t)) { Some(f) => a.extend(f), None => { coq_ok = false; a.push(0); } },
+            _ => { coq_ok = false; a.push(0); }
+        }
+        if *is_train {
+            match guarded(|| es(enc.train(bytes))) {
+                Ok(Ok(())) => txt = Some(bytes.clone()),
+                Ok(Err(_)) => { txt = None; coq_ok = false; }
+                Err(p) => {
+                    if let Some(cell) = judge_cell { let mut c = cj.clone(); c["cell"] = json!(cell); cx.eval(cell, &cj.to_string(), true); cx.fail(cell, None, c, &format!("train panicked: {}", p)); }
+                    return;
+                }
+            }
+            continue;
+        }
+        if txt.is_none() { txt = Some(bytes.clone()); }
+        let r = guarded(|| es(enc.encode(bytes)));
+        let tr = txt.clone().unwrap_or_default();
+        let cfg2 = cfg.clone();
+        let mut dec = |b: &[u8], n: usize| guarded(|| {
+            let mut d = ParallelHuffmanDecoder::<P>::new(cfg2.clone());
+            d.set_tree(HuffmanTree::from_data(&tr)?)?;
+            d.decode(b, n)
+        }).map(es);
+        match &r {
+            Ok(Ok(b)) => {
+                expect.extend(lres(&Ok(b.clone())));
+                match dec(b, bytes.len()) { Ok(o) => expect.extend(lres(&o)), Err(_) => coq_ok = false }
+            }
+            Ok(Err(_)) => { expect.extend(lres(&Err(String::new()))); expect.extend(lres(&Err(String::new()))); }
+            Err(_) => coq_ok = false,
+        }
+        if let Some(cell) = judge_cell {
+            let mut c = cj.clone();
+            c["step"] = json!(expect.len());
+            judge(cx, cell, &c, bytes, r, &mut dec);
+        } else if r.is_err() { return; }
+    }
+    if coq_ok { cx.coq(12, a, &[], expect, "ParallelHuffmanEncoder / ParallelHuffmanDecoder history", force); }
+}
+
+pub(super) fn par_hist_case(cx: &mut Cx, p: u64, cfg_name: &str, ops: &[(bool, Vec<u8>)], force: bool) {
+    let oj: Vec<Value> = ops.iter().map(|(t, b)| json!({"t": t, "b": b})).collect();
+    let cj = json!({"run": "par_hist", "p": p, "cfg": cfg_name, "ops": oj, "data": []});
+    match p {
+        2 => par_history::<ParallelX2Variant>(cx, cfg_name, ops, Some("parallel/x2/history"), &cj, force),
+        4 => par_history::<ParallelX4Variant>(cx, cfg_name, ops, Some("parallel/x4/history"), &cj, force),
+        _ => par_history::<ParallelX8Variant>(cx, cfg_name, ops, Some("parallel/x8/history"), &cj, force),
+    }
+}
+pub(super) fn run_par_hist(cx: &mut Cx, c: &Value) {
+    let ops: Vec<(bool, Vec<u8>)> = c["ops"].as_array().map(|a| a.iter().map(|o| (o["t"].as_bool().unwrap_or(false), bytes_of(&o["b"]))).collect()).unwrap_or_default();
+    par_hist_case(cx, c["p"].as_u64().unwrap_or(2), c["cfg"].as_str().unwrap_or("default"), &ops, true);
+}
+
+/// histories: an untrained encoder's first payload becomes its model; later payloads over a sub-alphabet, over the same
+/// alphabet with other frequency ranks, with a new symbol (refused), empty; re-training replaces the model
+pub(super) fn par_jobs(cx: &mut Cx, rng: &mut Rng) {
+    let cfgs = ["default", "low_latency", "high_throughput", "always_parallel", "balanced"];
+    let rounds = if cx.th { 60 } else { 12 };
+    for k in 0..rounds {
+        for (pi, p) in [2u64, 4, 8].iter().enumerate() {
+            let m = *rng.pick(&[1usize, 2, 3, 5, 9, 17]);
+            let al = alphabet(rng, m);
+            let mut rev = al.clone(); rev.reverse();
+            let mut ops: Vec<(bool, Vec<u8>)> = vec![];
+            let nops = 2 + rng.below(4) as usize;
+            for j in 0..nops {
+                let n = *rng.pick(&[0usize, 1, 2, 3, 7, 8, 9, 30, 64]);
+                let fam = rng.below(4);
+                let mut x = match rng.below(5) { 0 => payload(rng, 1, n, &rev), 1 => payload(rng, fam, n, &al[..1 + al.len() / 2]), _ => payload(rng, fam, n, &al) };
+                if rng.chance(1, 7) && !x.is_empty() { let i = rng.below(x.len() as u64) as usize; x[i] = rng.next() as u8; }
+                let is_train = if j == 0 { (k + pi) % 2 == 0 } else { rng.chance(1, 3) };
+                ops.push((is_train, x));
+            }
+            if !ops.iter().any(|o| !o.0) { ops.push((false, payload(rng, 0, 5, &al))); }
+            par_hist_case(cx, *p, cfgs[(k + pi) % cfgs.len()], &ops, false);
+        }
+    }
+}
